@@ -26,6 +26,8 @@ CALLS = ["getnames", "list", "archiveinfo", "needs_password", "test", "testzip",
          "extract_last", "reset", "getinfo"]
 DECODING = {"testzip", "extractall_null", "extractall_path", "extract_first", "extract_last"}
 MEM_LIMIT_KB = 512 * 1024
+COUNT_NAMES = {"numfiles", "numpackstreams", "numfolders", "numunpackstream", "numcoders", "packsize", "unpacksize", "subsize", "packpos"}
+COUNT_VALUES = [EXT.index(x) for x in (1 << 21, 1 << 28, (1 << 32) - 1, 1 << 49, (1 << 63) - 1)]
 
 _cache = {}
 
@@ -70,6 +72,31 @@ def get_bytes(name):
 
 def crc(b):
     return zlib.crc32(b) & 0xFFFFFFFF
+
+
+def _expensive(data):
+    """legitimately expensive declarations are outside the oracle (see assumptions)"""
+    import struct
+
+    from ref7z import coders as RC
+    from ref7z import reader as RR
+
+    try:
+        P = RR.parse(data, password="pw", decode=False)
+    except Exception:
+        return False
+    for c in [c for f in P.folders for c in f["coders"]] + list(P.header_coders or []):
+        props = c.get("props") or b""
+        try:
+            if c["m"] == RC.M_AES and props and 20 <= (props[0] & 0x3F) <= 24:
+                return True
+            if c["m"] == RC.M_LZMA2 and props and props[0] <= 40 and RC.lzma2_dict_from_code(props[0]) > (64 << 20):
+                return True
+            if c["m"] in (RC.M_LZMA, RC.M_PPMD) and len(props) >= 5 and struct.unpack("<L", props[1:5])[0] > (64 << 20):
+                return True
+        except Exception:
+            pass
+    return False
 
 
 def header_crcs_ok(data):
@@ -171,6 +198,10 @@ def build_input(case):
             if o.get("header") == "aes" and pw is None:
                 pw = "pw"
         return b2.data, pw, applied
+    if kind == "special":
+        return build_special(case), None, [case["what"]]
+    if kind == "raw":
+        return bytes.fromhex(case["hex"]), ("pw" if case.get("pw") != "none" else None), ["raw"]
     data, pw = get_bytes(case["seed"])
     data = bytearray(data)
     applied = []
@@ -199,6 +230,63 @@ def build_input(case):
             del data[p:p + 1 + op["v"] % 4]
         applied.append(k)
     return bytes(data), pw, applied
+
+
+def build_special(case):
+    """hand-shaped hostile layouts: encoded headers that decode to encoded headers (nesting, self reference)"""
+    from ref7z import coders as RC
+
+    b, opts, pw = get_built(case.get("seed", "copy"))
+    inner = RW.serialize(b.inner)
+    body = b"".join(f["packed"] for f in b.folders_enc)
+    what = case["what"]
+    coder = {"copy": [{"m": RC.M_COPY}], "lzma": [{"m": RC.M_LZMA, "dict": 65536}]}[case.get("coder", "copy")]
+
+    def wrap(payload, body):
+        """append `payload` as a packed header stream to body and return (body', encoded-header record pointing at it)"""
+        hc = [dict(c) for c in coder]
+        packed, sizes = RC.encode_chain(hc, payload)
+        fe = [{"coders": hc, "packed": packed, "unpack_sizes": sizes, "subs": [(len(payload), RW.crc(payload))], "fcrc": case.get("crc", True),
+               "folder_crc_value": RW.crc(payload), "scrc": [False]}]
+        rec = RW.serialize(RW.build_streams(fe, len(body), False, True, "auto", True, "omit", main_id=0x17))
+        return body + packed, rec
+
+    if what.startswith("nested"):
+        depth = int(what[6:])
+        payload = inner
+        for _ in range(depth):
+            body, payload = wrap(payload, body)
+        return RW.seal(body, payload)
+    if what == "selfref":
+        # an encoded-header record whose single Copy-coded pack stream is the record itself
+        size = 20
+        for _ in range(8):
+            fe = [{"coders": [{"m": RC.M_COPY, "props": None}], "packed": b"", "packsize": size, "unpack_sizes": [size], "subs": [(size, 0)], "fcrc": False,
+                   "folder_crc_value": 0, "scrc": [False]}]
+            rec = RW.serialize(RW.build_streams(fe, len(body), False, True, "auto", True, "omit", main_id=0x17))
+            if len(rec) == size:
+                break
+            size = len(rec)
+        return RW.seal(body, rec)
+    if what == "cycle2":
+        # two encoded-header records, each Copy-decoding to the other: the next header points at A, A's stream is B, B's stream is A
+        sa = sb = 20
+        for _ in range(10):
+            off_b = len(body)
+            off_a = off_b + sb
+
+            def rec(pos, size):
+                fe = [{"coders": [{"m": RC.M_COPY, "props": None}], "packed": b"", "packsize": size, "unpack_sizes": [size], "subs": [(size, 0)], "fcrc": False,
+                       "folder_crc_value": 0, "scrc": [False]}]
+                return RW.serialize(RW.build_streams(fe, pos, False, True, "auto", True, "omit", main_id=0x17))
+
+            B = rec(off_a, sa)
+            A = rec(off_b, sb)
+            if len(A) == sa and len(B) == sb:
+                break
+            sa, sb = len(A), len(B)
+        return RW.seal(body + B, A)
+    raise ValueError(what)
 
 
 def run_calls(data, pw, calls, how, workdir):
@@ -296,9 +384,18 @@ class C05(Check):
         return st.one_of(tree, tree, tree, byt)
 
     def examples(self, env):
-        return env.n(3000, 40000)
+        return env.n(1500, 40000)
 
     def enumerated(self, env):
+        j = 0
+        for what in ("nested1", "nested2", "nested3", "nested6", "selfref", "cycle2"):
+            for coder in ("copy", "lzma"):
+                for crcflag in (True, False):
+                    for seed in ("copy", "lzma2", "multi3"):
+                        j += 1
+                        if env.mine(j) and not (what in ("selfref", "cycle2") and coder == "lzma"):
+                            yield {"kind": "special", "what": what, "coder": coder, "crc": crcflag, "seed": seed, "ops": [], "calls": ["getnames", "extractall_null", "testzip"],
+                                   "pw": "none", "how": "stream" if j % 2 else "path"}
         yield from self.sweep(env, 1 << 20)
         # explicit histories the property names: extract twice without reset, testzip after extractall, on every seed
         i = 0
@@ -316,6 +413,70 @@ class C05(Check):
                     if env.mine(i):
                         yield {"kind": "bytes", "seed": name, "ops": [{"t": n, "op": "trunc", "v": 0}], "calls": ["extractall_null", "testzip"],
                                "pw": "right", "how": "stream"}
+
+    def finalize(self, merged, env):
+        """thorough tier: coverage-guided byte fuzzing (atheris/libFuzzer) of the read path; artifacts become C05 cases"""
+        if env.quick and not os.environ.get("VERIF_C05_FUZZ"):
+            return
+        import hashlib
+        import subprocess
+        import sys
+        import tempfile
+
+        from vlib.runner import VERIF, Executor
+
+        budget = int(os.environ.get("VERIF_C05_FUZZ", "600" if not env.quick else "60"))
+        target = os.path.join(VERIF, "fuzz", "c05_atheris.py")
+        try:
+            subprocess.run([sys.executable, "-c", "import sys; sys.path.append(%r); import atheris" % os.path.join(VERIF, ".deps")], check=True, capture_output=True)
+        except Exception:
+            merged.extra["atheris_unavailable"] = 1
+            return
+        work = tempfile.mkdtemp(prefix="c05fuzz", dir=env.scratch)
+        ex = Executor(self, env)
+        try:
+            for mode in ("seeded", "empty"):
+                corpus = os.path.join(work, "corpus-" + mode)
+                art = os.path.join(work, "art-" + mode) + os.sep
+                os.makedirs(corpus)
+                os.makedirs(art)
+                if mode == "seeded":
+                    for n in seed_names() + fixture_names():
+                        d = get_bytes(n)[0]
+                        if len(d) <= 4096:
+                            with open(os.path.join(corpus, hashlib.sha1(d).hexdigest()), "wb") as f:
+                                f.write(d)
+                cmd = [target, corpus, "-max_total_time=%d" % (budget // 2), "-timeout=20", "-rss_limit_mb=2048", "-max_len=8192", "-seed=%d" % (env.seed + 1),
+                       "-fork=8", "-ignore_timeouts=1", "-ignore_ooms=1", "-ignore_crashes=1", "-artifact_prefix=" + art, "-print_final_stats=1"]
+                p = subprocess.run(cmd, capture_output=True, timeout=budget + 300, env=dict(os.environ, PYTHONHASHSEED="0"))
+                tail = p.stderr.decode("utf-8", "replace")[-4000:]
+                import re
+
+                m = re.findall(r"^#(\d+):", tail, re.M)
+                execs = int(m[-1]) if m else 0
+                merged.extra["atheris_execs_" + mode] = execs
+                merged.extra["atheris_corpus_" + mode] = len(os.listdir(corpus))
+                arts = sorted(os.listdir(art))
+                merged.extra["atheris_artifacts_" + mode] = len(arts)
+                from fuzz_reseal import reseal
+
+                seen = set()
+                for a in arts[:200]:
+                    with open(os.path.join(art, a), "rb") as f:
+                        raw = f.read()
+                    if len(raw) < 33:
+                        continue
+                    d = reseal(raw)
+                    h = hashlib.sha1(d).hexdigest()
+                    if h in seen:
+                        continue
+                    seen.add(h)
+                    case = {"kind": "raw", "seed": "atheris:" + a.split("-")[0], "hex": d.hex(), "ops": [], "calls": ["getnames", "list", "extractall_null", "testzip", "test"],
+                            "pw": "right" if raw[0] & 1 else "none", "how": "stream"}
+                    merged.record(case, ex.run(case))
+        finally:
+            ex.close()
+            shutil.rmtree(work, ignore_errors=True)
 
     def sweep(self, env, i0):
         """exhaustive single-mutation sweep: every node of every seed's header tree x every value of its kind"""
@@ -341,8 +502,24 @@ class C05(Check):
                     for op in ops:
                         i += 1
                         if env.mine(i):
-                            yield {"kind": "tree", "seed": name, "tree": which, "hdr": None, "ops": [op], "calls": ["extractall_null", "testzip"],
+                            yield {"kind": "tree", "seed": name, "tree": which, "hdr": None, "ops": [op], "calls": ["extractall_null", "testzip", "test"],
                                    "pw": "right", "how": "stream"}
+                # two-operation sweep: a count set to a huge value while one section is dropped (the declared count then has no data behind it)
+                counts = [t for t in range(len(flat) - 1) if flat[1 + t][0].kind == "num" and flat[1 + t][0].name in COUNT_NAMES]
+                secs = [t for t in range(len(flat) - 1) if flat[1 + t][0].kind in ("sec", "sized")]
+                for tc in counts:
+                    for v in (COUNT_VALUES[1:2] + COUNT_VALUES[-1:] if env.quick else COUNT_VALUES):
+                        for ts in secs:
+                            if ts == tc:
+                                continue
+                            i += 1
+                            if env.mine(i):
+                                # drop first (indices after it shift), so order the ops by descending index
+                                ops2 = [{"t": tc, "op": "set", "v": v}, {"t": ts, "op": "drop", "v": 0}]
+                                if ts < tc:
+                                    ops2 = [{"t": tc, "op": "set", "v": v}, {"t": ts, "op": "drop", "v": 0}]
+                                yield {"kind": "tree", "seed": name, "tree": which, "hdr": None, "ops": ops2, "calls": ["extractall_null", "test"],
+                                       "pw": "right", "how": "stream"}
 
     def execute(self, case, env):
         out = Outcome()
@@ -350,6 +527,9 @@ class C05(Check):
             data, pw, applied = build_input(case)
         except (ValueError, KeyError, IndexError, OverflowError, RecursionError) as e:
             out.skipped = "unbuildable:" + type(e).__name__
+            return out
+        if case["kind"] == "raw" and _expensive(data):
+            out.skipped = "legitimately-expensive-declaration"
             return out
         if case["pw"] == "wrong":
             pw = "not-the-password"
